@@ -250,10 +250,10 @@ func (cs *ContractSet) ParseContractFile(path, pkgPath string, trusted bool) err
 				return fmt.Errorf("%s: %v", where, err)
 			}
 			sf.PkgPath, sf.Where = pkgPath, where
-			if _, dup := cs.Specs[sf.Name]; dup {
+			if _, dup := cs.Specs[pkgPath+"|"+sf.Name]; dup {
 				return fmt.Errorf("%s: duplicate spec function %s", where, sf.Name)
 			}
-			cs.Specs[sf.Name] = sf
+			cs.Specs[pkgPath+"|"+sf.Name] = sf
 			lastSpec = sf
 			specBody = &strings.Builder{}
 			specBody.WriteString(bodyTxt)
@@ -485,4 +485,26 @@ func (cs *ContractSet) SortedKeys() []string {
 	}
 	sort.Strings(ks)
 	return ks
+}
+
+// Spec finds a specification function by name: the one declared in the given package wins,
+// then trusted spec files, then any other package (first in sorted order).
+func (cs *ContractSet) Spec(name, pkgPath string) *SpecFunc {
+	if sf, ok := cs.Specs[pkgPath+"|"+name]; ok {
+		return sf
+	}
+	if sf, ok := cs.Specs["|"+name]; ok {
+		return sf
+	}
+	var keys []string
+	for k := range cs.Specs {
+		if strings.HasSuffix(k, "|"+name) {
+			keys = append(keys, k)
+		}
+	}
+	if len(keys) == 0 {
+		return nil
+	}
+	sort.Strings(keys)
+	return cs.Specs[keys[0]]
 }
